@@ -36,6 +36,7 @@ class ModelCfg:
     replay_kw: dict[str, Any] = field(default_factory=dict)
     max_scenarios: int | None = None   # cap on emitted scenarios replayed (sampled by seed)
     timeout: int = 3000
+    liveness: dict | None = None       # {"spec": ..., "properties": [...]}: temporal check, no VIEW, no replay
 
 
 @dataclass
@@ -93,6 +94,17 @@ def run_part(fam: Family, tier: str, seed: int, rep: core.Report) -> None:
 
     for cfg in fam.configs:
         if tier not in cfg.tiers:
+            continue
+        if cfg.liveness:
+            p = cfgdir / f"{cfg.name}-live.cfg"
+            tlc.write_cfg(p, constants=cfg.constants, spec=cfg.liveness["spec"], view=None,
+                          properties=cfg.liveness["properties"])
+            r = tlc.run_tlc(fam.mc_module, p, workers=8, timeout=cfg.timeout, tag=f"{fam.prop}-{cfg.name}-live")
+            if r.violated:
+                raise tlc.TLCError(f"model {fam.mc_module}/{cfg.name} violates temporal property {r.violated}\n"
+                                   + r.output[-3000:])
+            rep.add_model(f"{fam.mc_module}/{cfg.name}", r, mode="liveness under weak fairness",
+                          properties=cfg.liveness["properties"], constants=cfg.constants)
             continue
         base = dict(constants=cfg.constants, view=fam.view, invariants=fam.invariants,
                     properties=fam.properties)
